@@ -71,7 +71,10 @@ func SliceAppend(src Slice, data unsafe.Pointer, num, etSize int) Slice {
 	}
 	oldLen := src.len
 	src = GrowSlice(src, num, etSize)
-	c.Memcpy(c.Advance(src.data, oldLen*etSize), data, uintptr(num*etSize))
+	// The appended elements may live in src's own backing array
+	// (append(s[:i+1], s[i:]...) with spare capacity), so the two ranges
+	// can overlap: memmove, not memcpy.
+	c.Memmove(c.Advance(src.data, oldLen*etSize), data, uintptr(num*etSize))
 	return src
 }
 
